@@ -408,9 +408,9 @@ func runRdPure(c *core.Ctx) {
 		sort.Strings(bad)
 		props := []string{"C15"}
 		switch {
-		case strings.Contains(fn.String(), "EventCache"):
+		case strings.Contains(an.FuncFullName(fn), "EventCache"):
 			props = []string{"C03", "C15", "C16"}
-		case strings.Contains(fn.String(), "safeMap"):
+		case strings.Contains(an.FuncFullName(fn), "safeMap"):
 			props = []string{"C07", "C15"}
 		}
 		c.Check(len(bad) == 0, props, fname(c, fn), "read-region/writes", P.Pos(fn.Pos()),
